@@ -223,6 +223,23 @@ def _job_unguarded(job):
         except Exception as error:  # noqa
             if classify(error) not in ("DataError", "InterfaceError"):
                 problems.append("%s: validate() lets escape %s for data %r" % (what, classify(error)[6:], text))
+        if fmt == "delimited" and any(t["where"] == "data" for t in vec["targets"]):
+            # the same cell under a declared length it does not have (the cell then shows up in the message about the length)
+            for length in ("1" if len(data[0]) != 1 else "2", "...1" if len(data[0]) > 1 else "2...", "%d..." % (len(data[0]) + 1)):
+                narrow_rows = [list(row) for row in rows]
+                narrow_rows[2][F_COLUMN["length"]] = length
+                narrow_cid = cutplace.Cid()
+                try:
+                    narrow_cid.read("cid", narrow_rows)
+                except Exception:  # noqa
+                    continue
+                try:
+                    for item in cutplace.rows(narrow_cid, io.StringIO(text, newline=""), on_error="yield"):
+                        if isinstance(item, Exception) and classify(item) != "DataError":
+                            problems.append("%s: rows() yields %s for data %r under length %r" % (what, classify(item), text, length))
+                except Exception as error:  # noqa
+                    if classify(error) not in ("DataError", "InterfaceError"):
+                        problems.append("%s: rows() lets escape %s for data %r under CID %r" % (what, classify(error)[6:], text, narrow_rows))
         # the same data as a file (the declared encoding matters only there)
         folder = core.workdir("c10file%d" % os.getpid())
         try:
